@@ -411,6 +411,71 @@ def _kw_rauw(w, v, v2):
     return lambda: a.replace_all_uses_with(b)  # default replace_graph_outputs
 
 
+# ---- every other legal binding of the optional / keyword-capable parameters of instrumented calls ------
+@xop("pos_rauw")
+def _pos_rauw(w, v, v2, rgo):
+    a, b = w.V(v), w.V(v2)
+    return lambda: a.replace_all_uses_with(b, rgo)  # the flag passed positionally
+
+
+@xop("pos_remove")
+def _pos_remove(w, c, ns, safe):
+    cont, nodes = w.C(c), w.Ns(ns)
+    return lambda: cont.remove(nodes, safe)  # `safe` passed positionally
+
+
+@xop("kw_io_set")
+def _kw_io_set(w, c, which, i, v):
+    lst, val = _io(w, c, which), w.V(v)
+    return lambda: lst.__setitem__(i=i, item=val)
+
+
+@xop("kw_in_del")
+def _kw_in_del(w, g, key):
+    graph = w.G(g)
+    return lambda: graph.initializers.__delitem__(key=key)
+
+
+@xop("kw_attr_setitem")
+def _kw_attr_setitem(w, n, a):
+    node, attr = w.N(n), w.A(a)
+    return lambda: node.attributes.__setitem__(key=attr.name, value=attr)
+
+
+@xop("pos_val")
+def _pos_val(w, name):
+    def run():
+        v = ir.Value(None, name=name)  # `producer` passed positionally
+        w.add_value(v)
+        return w.label(v)
+    return run
+
+
+@xop("kw_attr")
+def _kw_attr(w, key, i, ref):
+    def run():
+        if ref:
+            a = ir.Attr(key, ir.AttributeType.INT, None, "outer_" + key)  # ref_attr_name passed positionally
+        else:
+            a = ir.Attr(name=key, type=ir.AttributeType.INT, value=i, ref_attr_name=None)
+        w.attrs.append(a)
+        return f"attr#{len(w.attrs) - 1}:{a.name}:{a.type}"
+    return run
+
+
+@xop("kw_func")
+def _kw_func(w, g, name):
+    graph = w.G(g)
+    if any(f.graph is graph for f in w.functions):
+        raise Skip()
+
+    def run():
+        f = ir.Function(domain="dom", name=name, overload="kw", graph=graph, attributes=[])
+        w.add_function(f)
+        return w.label(f)
+    return run
+
+
 # ---- markers are no-ops for a world (the journaled executor interprets them) ------------------------
 @xop("J_enter")
 def _j_enter(w, *a):
@@ -431,6 +496,8 @@ XWEIGHTS = {
     "attr_add_x": 1.5, "attr_update": 1, "f_attr_setitem": 0.8, "node_x": 1.5, "node_attrs": 1.2, "func_x": 0.8,
     "kw_io_append": 0.6, "kw_io_insert": 0.5, "kw_io_pop": 0.5, "kw_io_remove": 0.5, "kw_io_extend": 0.5, "kw_reg": 0.5,
     "kw_prepend": 0.5, "kw_n_append": 0.5, "gen_extend": 0.6, "kw_in_set": 0.5, "kw_rauw": 0.5,
+    "pos_rauw": 0.8, "pos_remove": 0.8, "kw_io_set": 0.5, "kw_in_del": 0.4, "kw_attr_setitem": 0.5, "pos_val": 0.4,
+    "kw_attr": 0.6, "kw_func": 0.3,
 }
 
 
@@ -599,6 +666,40 @@ class Gen20:
 
     def _kw_rauw(self):
         return ["kw_rauw", self.g.any_v(), self.g.any_v()]
+
+    def _pos_rauw(self):
+        op = self.g._rauw()
+        return ["pos_rauw", op[1], op[2], bool(op[3])]
+
+    def _pos_remove(self):
+        op = self.g._remove()
+        return ["pos_remove", op[1], op[2], bool(op[4])]
+
+    def _kw_io_set(self):
+        c, wh = self.g.any_c(), self.g._which()
+        return ["kw_io_set", c, wh, self.g._io_index(c, wh), self.g._io_value(c, wh)]
+
+    def _kw_in_del(self):
+        g = self.g.any_g()
+        try:
+            keys = list(self.w.G(g).initializers)
+        except Exception:  # noqa: BLE001
+            keys = []
+        return ["kw_in_del", g, self.rng.choice(keys) if keys and self.rng.random() < 0.8 else "absent"]
+
+    def _kw_attr_setitem(self):
+        if not self.w.attrs:
+            return self._attr()
+        return ["kw_attr_setitem", self.g.any_n(), self._a()]
+
+    def _pos_val(self):
+        return ["pos_val", self.g.name()]
+
+    def _kw_attr(self):
+        return ["kw_attr", self.rng.choice(["k", "alpha", "axis"]), self.rng.randint(0, 3), self.rng.random() < 0.3]
+
+    def _kw_func(self):
+        return ["kw_func", self.g.any_g(), self.rng.choice(["f", "g", "h"])]
 
 
 def insert_markers(rng, ops: list, max_depth: int = 3) -> list:
